@@ -48,6 +48,24 @@ func c20Check(c *fw.Ctx, pts [][2]float64, stride int, thr float64, class string
 		c20CheckFlat(c, pts, flat, stride, thr, class, "")
 		return
 	}
+	if r.Chance(1, 5) && n >= 3 && thr > 0 {
+		// a coarser simplification of the same array first, whose result the caller
+		// reorders and overwrites (it is the caller's); then the judged, finer one
+		if c.Guard("panic", func() {
+			coarse := xy.SimplifyFlatCoords(flat, thr*8, stride)
+			for i, j := 0, len(coarse)-1; i < j; i, j = i+1, j-1 {
+				coarse[i], coarse[j] = coarse[j], coarse[i]
+			}
+			if r.Bool() {
+				for i := range coarse[:cap(coarse)] {
+					coarse[:cap(coarse)][i] = -77
+				}
+			}
+		}) {
+			return
+		}
+		c.Count("coarser_result_of_the_same_array_scribbled_on_first")
+	}
 	if !c20CheckFlat(c, pts, flat, stride, thr, class, "") || n < 2 || !r.Chance(1, 3) {
 		return
 	}
